@@ -319,7 +319,7 @@ func c02Run(c *mon.Ctx, csAny any) {
 	if cs.Move != nil {
 		c.Count("history-cases")
 
-		a = cs.Move.From.Build()
+		a = cs.Move.Start()
 		a.Copy().Add(a).Subtract(secp256k1.Base()) // the old value takes part in arithmetic
 		_ = a.Encode()
 
